@@ -36,7 +36,7 @@ inductive Err where
 /-! ### word list and reverse map -/
 
 /-- `wordList` after `SetWordList(wordlists.English)` -/
-def wordList : List Bytes := Gen.Wordlist.wordlist.map strBytes
+@[irreducible] def wordList : List Bytes := Gen.Wordlist.wordlist.map strBytes
 
 /-- `wordMap` built by `for i, v := range wordList { wordMap[v] = i }`: later entries overwrite -/
 def mapGet : List Bytes → Nat → Bytes → Option Nat
